@@ -113,15 +113,15 @@ theorem delivered_to_operators_ok (n : Nat) (w : Watermarker) (evs : List REvK) 
 /-- after any interleaving of the runners' watermark messages, the registry's composite watermark is the minimum over
 all runners (configured or reporting) of the runner's latest report, a runner that has not reported counting as the epoch -/
 theorem composite_eq_min (ids : List String) (msgs : List (String × Int)) (hne : msgs ≠ []) :
-    let c := (reportAll (Ups.init ids, zeroTime) msgs).2
+    let c := (reportAll (Ups.init ids, regInit) msgs).2
     (∀ k, k ∈ ids ∨ k ∈ msgs.map (·.1) → c ≤ lastOr msgs k) ∧
     ∃ k, (k ∈ ids ∨ k ∈ msgs.map (·.1)) ∧ c = lastOr msgs k := by
   intro c
   obtain ⟨hwf0, hget0⟩ := Ups.init_spec ids
-  obtain ⟨hwf, hget, hc⟩ := reportAll_spec msgs (Ups.init ids) zeroTime hwf0
-  have hcomp : c = (reportAll (Ups.init ids, zeroTime) msgs).1.composite := hc hne
+  obtain ⟨hwf, hget, hc⟩ := reportAll_spec msgs (Ups.init ids) regInit hwf0
+  have hcomp : c = (reportAll (Ups.init ids, regInit) msgs).1.composite := hc hne
   have hval : ∀ k, (k ∈ ids ∨ k ∈ msgs.map (·.1)) →
-      (reportAll (Ups.init ids, zeroTime) msgs).1.get? k = some (lastOr msgs k) := by
+      (reportAll (Ups.init ids, regInit) msgs).1.get? k = some (lastOr msgs k) := by
     intro k hk
     rw [hget k, hget0 k]
     by_cases h1 : k ∈ ids
@@ -129,7 +129,7 @@ theorem composite_eq_min (ids : List String) (msgs : List (String × Int)) (hne 
     · have h2 : k ∈ msgs.map (·.1) := hk.resolve_left h1
       simp only [h1, if_false, Option.isSome_none, Bool.false_eq_true, false_or, h2, if_true, Option.getD_none]
       rfl
-  have hne' : (reportAll (Ups.init ids, zeroTime) msgs).1 ≠ [] := by
+  have hne' : (reportAll (Ups.init ids, regInit) msgs).1 ≠ [] := by
     cases msgs with
     | nil => exact absurd rfl hne
     | cons m ms =>
@@ -184,43 +184,78 @@ deployment** as of the watermark messages received since that deployment (includ
 `composite_eq_min`, the minimum over the upstream runners. Holds for every history of keyed events, watermark messages,
 source completions (a completed runner stays in the minimum with its latest report: `epochOf` keeps its messages) and
 redeployments (`HandleDeploy` again on the same operator: every runner back to "not reported"), every batch size and
-every timer store. Before the first watermark message of a deployment the field is `time.Time{}` (`reportAll` of no
-messages), which is below the epoch — never a value of an earlier deployment. -/
+every timer store. Before the first watermark message of a deployment the field is the registry's initial value
+`regInit` (`reportAll` of no messages) — never a value of an earlier deployment; `handler_told_min` identifies it. -/
 theorem handler_sees_composite (store : Store) (ids : List String) (maxBatch : Nat) (pre : List OpEv) (e : OpEv) :
     ∀ r ∈ ((Op.runState ⟨Registry.new store ids, [], maxBatch⟩ pre).step e).2,
-      r.told = (reportAll (Ups.init (epochOf (ids, []) (pre ++ [e])).1, zeroTime) (epochOf (ids, []) (pre ++ [e])).2).2 := by
+      r.told = (reportAll (Ups.init (epochOf (ids, []) (pre ++ [e])).1, regInit) (epochOf (ids, []) (pre ++ [e])).2).2 := by
   intro r hr
   have h0 : tracked ⟨Registry.new store ids, [], maxBatch⟩ (ids, []) := rfl
   have h1 := runState_tracks pre _ _ h0
   have h2 := (step_tracks _ _ h1 e).2 r hr
   rw [h2, epochOf_append]
 
-/-! ### D58 (open finding): what the handler is told before the first watermark message of a deployment
+/-! ### what the handler is told before the first watermark message of a deployment (finding D58, repaired by 204a1f7)
 
 The property's minimum counts a runner that has not reported as the epoch, so with no report at all it is the epoch.
-`TimerRegistry.watermark` is only assigned in `AdvanceWatermark`; until then it is `time.Time{}`. -/
+`NewTimerRegistry` now initialises `watermark` to that value (`Wm.regInit`, regenerated from the source); before the
+repair the field stayed `time.Time{}` until the first `AdvanceWatermark`. -/
 
 /-- the property's minimum for a deployment with runners `ids` that has received `msgs`: the minimum of the upstream map
 (every configured runner starts at the epoch) — defined whether or not a message has arrived -/
 def propMin (ids : List String) (msgs : List (String × Int)) : Int :=
-  (reportAll (Ups.init ids, zeroTime) msgs).1.composite
+  (reportAll (Ups.init ids, regInit) msgs).1.composite
 
-/-- FULL STATEMENT (false, see `handler_told_initial_counterexample`): every request tells `propMin` of the current deployment.
-PROVED (`_partial`): it does once at least one watermark message of the current deployment has arrived (including the
-one being handled) -/
-theorem handler_told_min_partial (store : Store) (ids : List String) (maxBatch : Nat) (pre : List OpEv) (e : OpEv)
-    (hmsg : (epochOf (ids, []) (pre ++ [e])).2 ≠ []) :
+theorem regInit_eq_upstreamInit : regInit = upstreamInit := by
+  simp [regInit, upstreamInit, Facts.regInitZero, Facts.regInitSec, Facts.regInitNsec, Facts.upstreamInitSec,
+    Facts.upstreamInitNsec]
+
+/-- at every moment — before the first watermark message of a deployment too — every request tells the handler the
+minimum over the upstream runners of their latest watermark, a runner that has not reported counting as the epoch
+(`propMin` of the current deployment; with `composite_eq_min` for its characterisation once a message arrived).
+Every history of keyed events, watermark messages, completions, barriers and redeployments, every batch size.
+(A deployment with no runner at all and no message has no minimum: excluded.) -/
+theorem handler_told_min (store : Store) (ids : List String) (maxBatch : Nat) (pre : List OpEv) (e : OpEv)
+    (hne : (epochOf (ids, []) (pre ++ [e])).2 ≠ [] ∨ (epochOf (ids, []) (pre ++ [e])).1 ≠ []) :
     ∀ r ∈ ((Op.runState ⟨Registry.new store ids, [], maxBatch⟩ pre).step e).2,
       r.told = propMin (epochOf (ids, []) (pre ++ [e])).1 (epochOf (ids, []) (pre ++ [e])).2 := by
   intro r hr
   rw [handler_sees_composite store ids maxBatch pre e r hr]
-  exact (reportAll_spec _ _ zeroTime (Ups.init_spec _).1).2.2 hmsg
+  generalize (epochOf (ids, []) (pre ++ [e])).1 = ids' at *
+  generalize (epochOf (ids, []) (pre ++ [e])).2 = msgs at *
+  by_cases hmsg : msgs = []
+  · subst hmsg
+    have hids : ids' ≠ [] := by
+      rcases hne with h | h
+      · exact absurd rfl h
+      · exact h
+    show regInit = (Ups.init ids').composite
+    obtain ⟨hwf, hget⟩ := Ups.init_spec ids'
+    have hne' : Ups.init ids' ≠ [] := by
+      intro hnil
+      cases ids' with
+      | nil => exact hids rfl
+      | cons i is =>
+        have := hget i
+        rw [hnil] at this
+        simp [Ups.get?] at this
+    obtain ⟨_, k, x, hmem, hx⟩ := Ups.composite_spec _ hne'
+    have hk := Ups.get?_some_of_mem _ hwf k x hmem
+    rw [hget k] at hk
+    by_cases hin : k ∈ ids'
+    · simp only [hin, if_true, Option.some.injEq] at hk
+      rw [hx, ← hk, regInit_eq_upstreamInit]
+    · simp [hin] at hk
+  · exact (reportAll_spec _ _ regInit (Ups.init_spec _).1).2.2 hmsg
 
-/-- before the first watermark message the handler is told `time.Time{}`, which is below the property's minimum (the epoch) -/
+/-- the witness of D58, about the old initial value: a registry whose `watermark` field starts as `time.Time{}` (the code
+before 204a1f7) tells the handler `time.Time{}` before the first watermark message, below the property's minimum (the epoch) -/
 theorem handler_told_initial_counterexample :
-    ((Op.runState ⟨Registry.new (Store.new [] 1 0 1 64) ["a", "b"], [], 1⟩ []).step (.keyed [0x6b] [])).2.map (·.told)
-      = [zeroTime] ∧
-    propMin ["a", "b"] [] = 0 ∧ zeroTime < 0 := by decide
+    ((Op.step ⟨{ Registry.new (Store.new [] 1 0 1 64) ["a", "b"] with wm := zeroTime }, [], 1⟩ (.keyed [0x6b] [])).2.map (·.told)
+      = [zeroTime]) ∧
+    propMin ["a", "b"] [] = 0 ∧ zeroTime < 0 ∧
+    -- the repaired code: the epoch
+    ((Op.step ⟨Registry.new (Store.new [] 1 0 1 64) ["a", "b"], [], 1⟩ (.keyed [0x6b] [])).2.map (·.told) = [0]) := by decide
 
 /-- handling a watermark message only adds `TimerExpired` events whose timestamp is at or before the new composite
 watermark: no timer later than the minimum of the upstreams fires. (Events are conserved: what the handler received
@@ -244,8 +279,8 @@ theorem no_timer_above_composite (o : Op) (sender : String) (wm : Int) :
 example : runnerRun (Watermarker.new 5) [.events [10, 30, 20], .tick, .events [40, 35], .tick] = [24, 34] := by decide
 
 /-- two runners: the composite follows the slower one; an unreported runner counts as the epoch -/
-example : (reportAll (Ups.init ["a", "b"], zeroTime) [("a", 10)]).2 = 0 ∧
-    (reportAll (Ups.init ["a", "b"], zeroTime) [("a", 10), ("b", 6), ("a", 12)]).2 = 6 ∧
+example : (reportAll (Ups.init ["a", "b"], regInit) [("a", 10)]).2 = 0 ∧
+    (reportAll (Ups.init ["a", "b"], regInit) [("a", 10), ("b", 6), ("a", 12)]).2 = 6 ∧
     lastOr [("a", 10), ("b", 6), ("a", 12)] "a" = 12 := by decide
 
 /-- batches of 4: one event, a tick, one event, a tick (the other raw events are keyed to nothing): the operator receives
@@ -254,9 +289,9 @@ example : delivered 4 (Watermarker.new 0)
     [.events [10], .events [], .events [], .events [], .tick, .events [100], .events [], .events [], .events [], .tick] =
     [.ev 10, .wm 9, .ev 100, .wm 99] := by decide
 
-/-- after a redeployment the handler is told `time.Time{}` again until a runner of the new deployment reports -/
+/-- after a redeployment the handler is told the epoch again until a runner of the new deployment reports -/
 example : ((Op.runState ⟨Registry.new (Store.new [] 1 0 1 64) ["a"], [], 1⟩
-      [.wmark "a" 100, .redeploy (Store.new [] 1 0 1 64) ["a"]]).step (.keyed [0x6b] [])).2.map (·.told) = [zeroTime] ∧
+      [.wmark "a" 100, .redeploy (Store.new [] 1 0 1 64) ["a"]]).step (.keyed [0x6b] [])).2.map (·.told) = [0] ∧
     ((Op.runState ⟨Registry.new (Store.new [] 1 0 1 64) ["a"], [], 1⟩
       [.wmark "a" 100]).step (.keyed [0x6b] [])).2.map (·.told) = [100] := by decide
 
